@@ -379,6 +379,14 @@ func (c11) Eval(t *testing.T, c *Case, dec func(int) *Decider) *Outcome {
 			preload = r.Range(1, 3)
 			o.Stats.probe("real-preload-run")
 		}
+		// in 15% of the runs nobody reads what the process prints (csvq ... | head -1):
+		// its next write to standard output raises SIGPIPE
+		brokenPipe := r.Bool(0.15)
+		if brokenPipe {
+			spec = "no.such.point#1:INT"
+			o.Stats.probe("real-broken-pipe-run")
+		}
+		realBrokenPipe = brokenPipe
 		dir, code, stderr, err := realSignalRun(bin, sc, p, spec, preload)
 		o.RealProc++
 		if err != nil && strings.Contains(err.Error(), "did not terminate within") {
@@ -513,6 +521,9 @@ func outputsShort(res *RunResult) []string {
 
 // realSignalRun runs the program of process p alone in the real binary with a
 // VERIF_PLAN that makes it signal itself at a hook point.
+// realBrokenPipe: the next real-process run gets a standard output nobody reads.
+var realBrokenPipe bool
+
 func realSignalRun(bin string, sc *Scenario, p int, spec string, preload int) (DirState, int, string, error) {
 	setupBase()
 	dir, err := os.MkdirTemp(BaseDir, "real11-")
@@ -543,6 +554,15 @@ func realSignalRun(bin string, sc *Scenario, p int, spec string, preload int) (D
 	cmd := exec.Command(bin, "--repository", dir, "--quiet", "--cpu", "1", "--format", "CSV", "--wait-timeout", "1", program)
 	cmd.Env = append(os.Environ(), "VERIF_PLAN="+string(plan))
 	cmd.Dir = cwd
+	if realBrokenPipe {
+		pr, pw, err := os.Pipe()
+		if err != nil {
+			return nil, 0, "", err
+		}
+		_ = pr.Close() // no reader: the first write fails with EPIPE / raises SIGPIPE
+		cmd.Stdout = pw
+		defer pw.Close()
+	}
 	var stderr bytes.Buffer
 	cmd.Stderr = &stderr
 	done := make(chan error, 1)
